@@ -70,6 +70,7 @@ class Cx:
         self.facts = set()
         self.problems = []      # (line, message)
         self.rets = []
+        self.ret_facts = []     # dimension facts holding at each entry of rets
         self.exc_returned = []  # lines where an exception object is returned
 
     def canon(self, d):
@@ -383,7 +384,9 @@ class Interp:
                 if v.kind == "EXC":
                     cx.exc_returned.append((s.lineno, "`return %s(...)`: the exception is returned, not raised"
                                             % v.extra))
-                raise Ret(v)
+                r_ = Ret(v)
+                r_.facts = set(cx.facts)
+                raise r_
             elif isinstance(s, ast.Raise):
                 raise Raises()
             elif isinstance(s, ast.If):
@@ -409,6 +412,7 @@ class Interp:
                         outcomes.append(("raise", None, None))
                     except Ret as r:
                         cx.rets.append(r.v)
+                        cx.ret_facts.append(getattr(r, "facts", set()))
                         outcomes.append(("ret", None, None))
                     cx.facts = saved
                 falls = [o for o in outcomes if o[0] == "fall"]
@@ -436,12 +440,14 @@ class Interp:
         sub = Cx()
         sub.facts = set(cx.facts)
         res = None
+        res_facts = set()
         try:
             try:
                 self.run_block(fn.body, dict(env), sub)
                 res = UNK
             except Ret as r:
                 res = r.v
+                res_facts = getattr(r, "facts", set())
             except Raises:
                 cx.problems += sub.problems
                 cx.exc_returned += sub.exc_returned
@@ -452,4 +458,12 @@ class Interp:
         cx.exc_returned += sub.exc_returned
         rets = [r for r in sub.rets if r is not None] + ([res] if res is not None and res is not UNK else [])
         cx.all_rets = rets
+        cx.all_ret_facts = [f_ for r, f_ in zip(sub.rets, sub.ret_facts + [set()] * len(sub.rets)) if r is not None] + \
+            ([res_facts] if res is not None and res is not UNK else [])
+        # what every returning path of the callee established about the dimensions holds in the caller after the call
+        if cx.all_ret_facts:
+            common = set(cx.all_ret_facts[0])
+            for f_ in cx.all_ret_facts[1:]:
+                common &= set(f_)
+            cx.facts |= common
         return rets[0] if rets else UNK
